@@ -48,7 +48,7 @@ def run(ctx):
 
     # 1. the strict design round-trips every model and isolates tags; the as-built deviations do not
     env = {"MAXK3": "0"}
-    r = ctx.tlc("MC_SdkModel", cfg_text=mc_cfg("{}", "RoundTrip StepsAreOutcome OneContent TagIsolation"), env=env, name="mc-strict",
+    r = ctx.tlc("MC_SdkModel", cfg_text=mc_cfg("{}", "RoundTrip StepsAreOutcome OneContent TagIsolation RecordsIndependent"), env=env, name="mc-strict",
                 timeout=3600, coverage=thorough, workers=1)
     if not r.ok:
         raise vlib.Inconclusive("strict SdkModel spec does not satisfy its own properties: %s %s" % (r.violated, r.error))
@@ -56,7 +56,7 @@ def run(ctx):
     if thorough:
         if r.coverage_zero:
             ctx.extra["coverage_zero"] = r.coverage_zero[:10]
-        r3 = ctx.tlc("MC_SdkModel", cfg_text=mc_cfg("{}", "RoundTrip OneContent"), env={"MAXK3": "1"}, name="mc-strict-k3", timeout=7200, workers=1)
+        r3 = ctx.tlc("MC_SdkModel", cfg_text=mc_cfg("{}", "RoundTrip OneContent RecordsIndependent"), env={"MAXK3": "1"}, name="mc-strict-k3", timeout=7200, workers=1)
         if not r3.ok:
             raise vlib.Inconclusive("strict SdkModel spec (4-field models) does not satisfy its own properties: %s %s" % (r3.violated, r3.error))
         ctx.extra["mc_strict_k3"] = r3.summary()
@@ -74,30 +74,38 @@ def run(ctx):
         c = json.loads(x) if isinstance(x, str) else x
         if isinstance(c, dict) and "fields" in c:
             cases.append(c)
-    if len(cases) < 5000:
+    if len(cases) < 5000 and not ctx.replay:
         raise vlib.Inconclusive("Gen_SdkModel produced only %d cases" % len(cases))
     for c in cases:
         if c["strict"] != c["expected"]:
             raise vlib.Inconclusive("the strict spec's outcome differs from the expectation for %s" % json.dumps(c["fields"]))
     ctx.extra["generated_models"] = len(cases)
-    ctx.extra["value_variants_per_model"] = 3
     if ctx.replay:
         rp = json.load(open(ctx.replay))["replay"]
         want = json.dumps([rp["kind"], rp["fields"]], sort_keys=True)
         cases = [c for c in cases if json.dumps([c["kind"], c["fields"]], sort_keys=True) == want]
         if not cases:
             raise vlib.Inconclusive("the replayed model is not in the generated space")
-    # every abstract case is concretised three times: "a non-zero value" of a type is an ordinary value (variant 0)
-    # or a boundary value (1: negative int / pre-epoch time / multi-byte string with NUL / slice holding "",
-    # 2: extreme int / the epoch itself / 3000-byte string / 300-element slice); the expectation is the same
+    # every abstract case is concretised several times. A variant (0..6) picks the representatives of the KEY
+    # (plain; leading / trailing blank; case + trailing tab; inner double blank; white space only; multi-byte and
+    # 600 bytes long - the sibling record's key differs from it only by white space or case), of string values
+    # (plain; multi-byte with NUL and '/'; 3000 bytes; leading blanks; differing only in trailing white space;
+    # white space only; mixed case with inner double blank) and of the other types (ordinary; negative int /
+    # pre-epoch time / slice holding ""; extreme int / the epoch itself / 300-element slice).  The expectation is
+    # the same for every variant.  Small models get all 7 variants in the thorough tier, otherwise 3 rotating ones.
     abstract = cases
     cases = []
-    for c in abstract:
-        for variant in (0, 1, 2):
+    for i, c in enumerate(abstract):
+        if thorough and len(c["fields"]) <= 3:
+            variants = range(7)
+        else:
+            variants = sorted(set((i + ctx.seed + k) % 7 for k in (0, 2, 4)))
+        for variant in variants:
             d = dict(c)
             d["variant"] = variant
             d["id"] = len(cases) + 1
             cases.append(d)
+    ctx.extra["runs_per_variant"] = {str(v): sum(1 for c in cases if c["variant"] == v) for v in range(7)}
     cf = os.path.join(ctx.work, "cases.json")
     json.dump([dict(id=c["id"], kind=c["kind"], variant=c["variant"], fields=c["fields"]) for c in cases], open(cf, "w"))
     rf = os.path.join(ctx.work, "results.ndjson")
@@ -111,20 +119,25 @@ def run(ctx):
     for x in res:
         c = byid[x["id"]]
         obs = dict(save=x["save"], read=x["read"], out=x["out"])
+        # catalog models: the sibling record (saved first under a key that differs only by white space / case) must
+        # read back exactly like the main record does, in its own frame
+        sib = x.get("sib")
+        sobs = dict(save=sib["save"], read=sib["read"], out=sib["out"]) if sib else None
         heads = [f["head"] for f in c["fields"]]
         ctx.count_case([c["kind"], c["variant"], c["fields"]], nontrivial=len(c["fields"]) >= 3 or any(h not in ("key", "name", "count", "tags", "when") for h in heads))
-        if obs == c["expected"]:
+        if obs == c["expected"] and sobs in (None, c["expected"]):
             counts["held"] += 1
             continue
         expl = None
         for name, fids in DEVS:
-            if obs == c[name] and c[name] != c["expected"]:
+            if obs == c[name] and sobs in (None, c[name]) and c[name] != c["expected"]:
                 expl = (name, fids)
                 break
-        what = "model %s %s (value variant %d): saved %s, read back save=%s read=%s out=%s (%s); expected %s" % (
+        what = "model %s %s (variant %d): saved %s, read back save=%s read=%s out=%s (%s); sibling record (key differing only by white space/case) read back %s; expected %s for both" % (
             c["kind"], json.dumps([[f["head"] + (",omitempty" if f["om"] else ""), f["ty"]] for f in c["fields"]]), c["variant"],
-            json.dumps([f["val"] for f in c["fields"]]), x["save"], x["read"], json.dumps(x["out"]), x["detail"][:120], json.dumps(c["expected"]))
-        rep = dict(kind=c["kind"], fields=c["fields"], variant=c["variant"], observed=obs, detail=x["detail"])
+            json.dumps([f["val"] for f in c["fields"]]), x["save"], x["read"], json.dumps(x["out"]), x["detail"][:120],
+            json.dumps(sobs) + ((" (" + sib["detail"][:80] + ")") if sib and sib["detail"] else ""), json.dumps(c["expected"]))
+        rep = dict(kind=c["kind"], fields=c["fields"], variant=c["variant"], observed=obs, sibling=sobs, detail=x["detail"])
         if expl is None:
             counts["unexplained"] += 1
             if counts["unexplained"] <= 5:          # every one is a violation; a handful of replay files is enough
@@ -168,13 +181,14 @@ def run(ctx):
         arf = os.path.join(ctx.work, "selftest.ndjson")
         ctx.run_driver(binary, ["run", af, arf], timeout=1800)
         ares = [json.loads(l) for l in open(arf)]
-        same = [x["id"] for x in ares if dict(save=x["save"], read=x["read"], out=x["out"]) == byid[x["id"]]["expected"]]
+        same = [x["id"] for x in ares if dict(save=x["save"], read=x["read"], out=x["out"]) == byid[x["id"]]["expected"]
+                and (not x.get("sib") or dict(save=x["sib"]["save"], read=x["sib"]["read"], out=x["sib"]["out"]) == byid[x["id"]]["expected"])]
         ctx.extra["selftest_flipped_cases"] = len(ares)
         ctx.extra["selftest_flipped_cases_detected"] = len(ares) - len(same)
         # a flipped time slot may legitimately turn into a documented rejection, which still differs from the expectation
         if same:
             raise vlib.Inconclusive("binding self-test failed: %d flipped cases still matched the original expectation" % len(same))
 
-    ctx.cov["rule"] = ("cases = models enumerated by TLC (tag heads x omitempty x type x zero/non-zero values), each concretised with 3 representatives of the non-zero values (ordinary, two boundary sets), built with reflect.StructOf, saved and read through the real SDK; "
+    ctx.cov["rule"] = ("cases = models enumerated by TLC (tag heads x omitempty x type x zero/non-zero values), each concretised with 3-7 variants of key / string / other values (white space, case, multi-byte, long, boundary values) and, for catalogs, a sibling record whose key differs only by white space or case, built with reflect.StructOf, saved and read through the real SDK; "
                        "non-trivial = at least 2 non-key fields or a tag head that is reserved or contains a reserved word; distinct by (kind, value variant, fields)")
     ctx.cov["exhaustive"] = True
